@@ -784,7 +784,7 @@ func init() {
 		Rule: "three kinds of cases. Lists: AddListItem/AddBulletList/AddNumberedList/CreateMultiLevelList over all list types, predefined and custom bullet symbols, levels -1..25, start numbers 0/1/5/100, RestartNumbering, other content, save+open cycles; every item carries a unique token and is resolved in the saved package numId -> w:num -> w:abstractNum -> w:lvl[ilvl]: numFmt, bullet symbol, start, ilvl. " +
 			"Notes: 1-3 live documents, AddFootnote/AddEndnote/AddFootnoteToRun with unique note texts, Remove*note with held and absent ids, save+open; each document's notes part must hold exactly its own notes once, counts and removal results agree with the per-document ledger. " +
 			"TOC: headings 1-9 through helpers and SetStyle, body text, tables, GenerateTOC/AutoGenerateTOC with MaxLevel 1-9, UpdateTOC (also twice): the entries of the single TOC control must be the headings up to the requested level in body order with their full text. Non-trivial: >=2 items/notes/headings and >=1 comparison.",
-		Cases: func(t string) int { return tierN(t, 4500, 150000) },
+		Cases: func(t string) int { return tierN(t, 8000, 150000) },
 		Run: func(c *core.Ctx) *core.Result {
 			r := caseRng(c)
 			document.VerifResetGlobals()
